@@ -8,9 +8,6 @@ import (
 	"strings"
 	"testing"
 
-	"github.com/yuin/goldmark/extension"
-	"github.com/yuin/goldmark/renderer/html"
-	"github.com/yuin/goldmark/util"
 	"pgregory.net/rapid"
 
 	"verif/gen"
@@ -21,7 +18,7 @@ import (
 func TestMain(m *testing.M) {
 	kit.Register("safe", safeOracle)
 	kit.Describe("case = (safe-mode configuration, source) from HTML/attribute-heavy soup, line soup, repository inputs and mutations, and adversarial fragments placed in every attribute-bearing position (title, alt, info string, destination, reference title, heading attribute block, table cell, footnote label, definition term); non-trivial = the source contains one of < > \" & { and the output carries at least one attribute; distinct by hash of (configuration, source)",
-		"the vocabulary (tags, fixed attribute names) is a literal table in the check; per-element attribute filters are read from goldmark's exported *AttributeFilter variables", "browser view = golang.org/x/net/html tokenizer", "XML check only when the output is valid UTF-8 of XML Chars")
+		"the vocabulary (tags, fixed attribute names) is a literal table in the check; per-element attribute names are a literal copy of the documented *AttributeFilter lists (goldmark's filter objects are not consulted)", "browser view = golang.org/x/net/html tokenizer", "XML check only when the output is valid UTF-8 of XML Chars")
 	kit.Main(m, "C03")
 }
 
@@ -33,51 +30,37 @@ var fixedAttrs = map[string][]string{
 	"li": {"id"}, "div": {"class", "role"}, "sup": {"id"},
 }
 
-func filterFor(tag string) util.BytesFilter {
-	switch tag {
-	case "p":
-		return html.ParagraphAttributeFilter
-	case "h1", "h2", "h3", "h4", "h5", "h6":
-		return html.HeadingAttributeFilter
-	case "blockquote":
-		return html.BlockquoteAttributeFilter
-	case "ul", "ol":
-		return html.ListAttributeFilter
-	case "li":
-		return html.ListItemAttributeFilter
-	case "hr":
-		return html.ThematicAttributeFilter
-	case "a":
-		return html.LinkAttributeFilter
-	case "code", "pre":
-		return html.CodeAttributeFilter
-	case "em", "strong":
-		return html.EmphasisAttributeFilter
-	case "img":
-		return html.ImageAttributeFilter
-	case "del":
-		return extension.StrikethroughAttributeFilter
-	case "table":
-		return extension.TableAttributeFilter
-	case "thead":
-		return extension.TableHeaderAttributeFilter
-	case "tr":
-		return extension.TableRowAttributeFilter
-	case "th":
-		return extension.TableThCellAttributeFilter
-	case "td":
-		return extension.TableTdCellAttributeFilter
-	case "dl":
-		return extension.DefinitionListAttributeFilter
-	case "dt":
-		return extension.DefinitionTermAttributeFilter
-	case "dd":
-		return extension.DefinitionDescriptionAttributeFilter
-	case "div", "sup":
-		return html.GlobalAttributeFilter
-	}
-	return nil
+// The per-element attribute vocabulary, copied from the documentation of the exported *AttributeFilter variables
+// at the pinned commit. It is a literal table on purpose: asking goldmark's own filter objects (Contains) would
+// make the oracle agree with a broken filter.
+const globalAttrs = "accesskey,autocapitalize,autofocus,class,contenteditable,dir,draggable,enterkeyhint,hidden,id,inert,inputmode,is,itemid,itemprop,itemref,itemscope,itemtype,lang,part,role,slot,spellcheck,style,tabindex,title,translate"
+
+var extraAttrs = map[string]string{
+	"blockquote": "cite", "ul": "start,reversed,type", "ol": "start,reversed,type", "li": "value",
+	"hr": "align,color,noshade,size,width", "a": "download,hreflang,media,ping,referrerpolicy,rel,shape,target",
+	"img":   "align,border,crossorigin,decoding,height,importance,intrinsicsize,ismap,loading,referrerpolicy,sizes,srcset,usemap,width",
+	"table": "align,bgcolor,border,cellpadding,cellspacing,frame,rules,summary,width",
+	"thead": "align,bgcolor,char,charoff,valign", "tr": "align,bgcolor,char,charoff,valign",
+	"th": "abbr,align,axis,bgcolor,char,charoff,colspan,headers,height,rowspan,scope,valign,width",
+	"td": "abbr,align,axis,bgcolor,char,charoff,colspan,headers,height,rowspan,scope,valign,width",
 }
+
+var vocab = func() map[string]map[string]bool {
+	m := map[string]map[string]bool{}
+	for _, tag := range []string{"p", "h1", "h2", "h3", "h4", "h5", "h6", "blockquote", "ul", "ol", "li", "hr", "a", "code", "pre", "em", "strong", "img", "del", "table", "thead", "tr", "th", "td", "dl", "dt", "dd", "div", "sup"} {
+		set := map[string]bool{}
+		for _, n := range strings.Split(globalAttrs, ",") {
+			set[n] = true
+		}
+		if x := extraAttrs[tag]; x != "" {
+			for _, n := range strings.Split(x, ",") {
+				set[n] = true
+			}
+		}
+		m[tag] = set
+	}
+	return m
+}()
 
 func allowedTags(cfg gen.Config) map[string]bool {
 	m := map[string]bool{}
@@ -118,7 +101,7 @@ func CheckSafe(cfg gen.Config, out []byte) error {
 		if !tags[e.Name] {
 			return kit.Violf("foreign-tag", "element <%s> is not in the vocabulary of %s", e.Name, cfg)
 		}
-		f := filterFor(e.Name)
+		f := vocab[e.Name]
 		for _, a := range e.Attrs {
 			nattr++
 			ok := false
@@ -127,7 +110,7 @@ func CheckSafe(cfg gen.Config, out []byte) error {
 					ok = true
 				}
 			}
-			if !ok && f != nil && f.Contains([]byte(a.Name)) {
+			if !ok && f[a.Name] {
 				ok = true
 			}
 			if !ok && strings.HasPrefix(a.Name, "data-") {
@@ -251,6 +234,74 @@ func TestSafeAttack(t *testing.T) {
 			cfg.Attr = true
 		}
 		run(t, cfg, attack(t), "attack")
+	})
+}
+
+// attribute names: members of the vocabulary, one-letter edits of members, position-wise mixes of two members
+// (what a per-position character table cannot tell apart), short names over the letters of the vocabulary,
+// event handlers and prefixes of data-. Only names in the literal vocabulary (or data-*) may come out.
+var vocabNames = strings.Split(globalAttrs+",cite,start,reversed,type,value,align,color,noshade,size,width,download,hreflang,media,ping,referrerpolicy,rel,shape,target,border,crossorigin,decoding,height,importance,intrinsicsize,ismap,loading,sizes,srcset,usemap,bgcolor,cellpadding,cellspacing,frame,rules,summary,char,charoff,valign,abbr,axis,colspan,headers,rowspan,scope", ",")
+
+func attrName(t *rapid.T, label string) string {
+	a := rapid.SampledFrom(vocabNames).Draw(t, label+"a")
+	const letters = "abcdefghijklmnopqrstuvwxyz"
+	switch rapid.IntRange(0, 7).Draw(t, label+"k") {
+	case 0:
+		return a
+	case 1: // substitute one letter
+		i := rapid.IntRange(0, len(a)-1).Draw(t, label+"i")
+		return a[:i] + string(letters[rapid.IntRange(0, 25).Draw(t, label+"c")]) + a[i+1:]
+	case 2: // delete / append / duplicate
+		i := rapid.IntRange(0, len(a)-1).Draw(t, label+"i")
+		switch rapid.IntRange(0, 2).Draw(t, label+"e") {
+		case 0:
+			return a[:i] + a[i+1:]
+		case 1:
+			return a + string(letters[rapid.IntRange(0, 25).Draw(t, label+"c")])
+		}
+		return a[:i] + a[i:i+1] + a[i:]
+	case 3, 4: // position-wise mix of two members
+		b := rapid.SampledFrom(vocabNames).Draw(t, label+"b")
+		n := len(a)
+		if rapid.Bool().Draw(t, label+"len") {
+			n = len(b)
+		}
+		out := make([]byte, 0, n)
+		for i := 0; i < n; i++ {
+			src := a
+			if rapid.Bool().Draw(t, label+"pick") {
+				src = b
+			}
+			if i < len(src) {
+				out = append(out, src[i])
+			} else if i < len(a) {
+				out = append(out, a[i])
+			} else {
+				out = append(out, b[i])
+			}
+		}
+		return string(out)
+	case 5: // short name over the vocabulary's letters
+		return rapid.StringMatching("[acdehilnoprstuy]{1,4}").Draw(t, label+"s")
+	case 6:
+		return rapid.SampledFrom([]string{"onclick", "onerror", "onload", "onmouseover", "href", "src", "srcdoc", "action", "formaction", "xlink:href", "xmlns", "data", "data-", "data-x", "dat", "data_x", "DATA-X", "Style", "ID", "aria-label", "http-equiv", "for", "name", "checked", "disabled"}).Draw(t, label+"h")
+	default: // prefix of a member
+		return a[:rapid.IntRange(1, len(a)).Draw(t, label+"n")]
+	}
+}
+
+func TestSafeAttrNames(t *testing.T) {
+	kit.Rapid(t, "attrnames", 60000, 3000000, func(t *rapid.T) {
+		cfg := gen.DrawConfig(t, gen.ConfigOpts{SafeOnly: true, ForceAttr: true})
+		n := rapid.IntRange(1, 4).Draw(t, "n")
+		var block []string
+		for i := 0; i < n; i++ {
+			v := rapid.SampledFrom([]string{"v", "\"v w\"", "1", "true", "\"<&\\\">\"", "[a]"}).Draw(t, "v")
+			block = append(block, attrName(t, "name"+string(rune('0'+i)))+"="+v)
+		}
+		attrs := "{" + strings.Join(block, " ") + "}"
+		tpl := rapid.SampledFrom([]string{"# h @\n", "## h ## @\n", "h @\n===\n", "> # q @\n", "- ### i @\n", "```go @\nc\n```\n", "~~~ @\nc\n~~~\n", "# *e* `c` @\n\n|a|\n|-|\n"}).Draw(t, "tpl")
+		run(t, cfg, []byte(strings.Replace(tpl, "@", attrs, 1)), "attrnames")
 	})
 }
 
